@@ -38,6 +38,9 @@ def run(ctx):
     ctx.each(flowalg.step_wiring_rule, ctx, repo, "R01l")
     ctx.each(flowalg.stateless_step_rule, ctx, repo, "R01m")
     ctx.each(flowalg.kind_dispatch_rule, ctx, repo, "R01n")
+    from . import c06
+
+    ctx.each(c06.r06k, ctx, repo)  # transfers between populations move people between same-named compartments
 
 
 # ---------------------------------------------------------------------------------------------- R01a
